@@ -6,6 +6,10 @@ pub mod h_rope;
 pub mod dbg;
 pub mod h_ordered;
 pub mod h_unord;
+pub mod wire;
+pub mod h_derive;
+#[allow(non_camel_case_types, dead_code, unused_imports, clippy::all)]
+pub mod gen_shapes;
 
 /// run `f`, mapping a panic to `None`
 pub fn guarded<R>(f: impl FnOnce() -> R) -> Option<R> {
